@@ -148,3 +148,68 @@ def run_history(case: dict) -> dict:
                 st["reparse_fail"] = _exc(e)
         out["steps"].append(st)
     return out
+
+
+# ---------------------------------------------------------------------------
+# C12: path texts
+
+def _chain(text: str):
+    """(raw attribute tokens, leaf text, definitions per level) of the single binding chain of `{ ... }'."""
+    import tree_sitter_nix as tsn
+    from tree_sitter import Language, Parser
+    root = Parser(Language(tsn.language())).parse(text.encode()).root_node
+    if root.has_error:
+        return None
+    node = next((c for c in root.children if c.type in ("attrset_expression", "rec_attrset_expression")), None)
+    raw, maxdefs = [], 0
+    while node is not None and node.type in ("attrset_expression", "rec_attrset_expression"):
+        bs = next((c for c in node.children if c.type == "binding_set"), None)
+        binds = [c for c in (bs.children if bs else []) if c.type == "binding"]
+        if not binds:
+            return raw, None, maxdefs
+        maxdefs = max(maxdefs, len(binds))
+        b = binds[0]
+        ap = next(c for c in b.children if c.type == "attrpath")
+        for seg in ap.children:
+            if seg.type != ".":
+                raw.append(seg.text.decode())
+        node = [c for c in b.named_children if c.type not in ("attrpath", "comment")][-1]
+    return raw, node.text.decode() if node is not None else None, maxdefs
+
+
+def npath_case(case: dict) -> dict:
+    from nix_manipulator.cli.manipulations import remove_value, set_value
+    from nix_manipulator.parser import parse
+    text = case["text"]
+    out: dict = {}
+
+    def call(f, *a):
+        try:
+            with time_limit(10):
+                return "ok", f(*a)
+        except BaseException as e:  # noqa: BLE001
+            if isinstance(e, (KeyboardInterrupt, SystemExit)):
+                raise
+            return type(e).__name__, None
+    out["res"], t1 = call(lambda: set_value(parse("{ }\n"), text, "1"))
+    if out["res"] == "ok":
+        ch = _chain(t1)
+        out["t1"] = t1
+        out["raw"] = ch[0] if ch else None
+        out["res2"], t2 = call(lambda: set_value(parse(t1), text, "2"))
+        if out["res2"] == "ok":
+            ch2 = _chain(t2)
+            out["raw2"], out["leaf2"], out["n2"] = ch2 if ch2 else (None, None, 0)
+            out["res3"], t3 = call(lambda: remove_value(parse(t2), text))
+            if out["res3"] == "ok":
+                ch3 = _chain(t3)
+                out["t3"] = t3
+                # gone: the innermost name no longer defined
+                out["gone3"] = ch3 is not None and len(ch3[0]) < len(ch2[0] if ch2 else [])
+    if case.get("alt_file"):
+        out["altres"], ta = call(lambda: set_value(parse(case["alt_file"]), text, "2"))
+        if out["altres"] == "ok":
+            cha = _chain(ta)
+            out["alt_out"] = ta
+            out["altdefs"] = cha[2] if cha else 0
+    return out
